@@ -372,3 +372,25 @@ Section P2Skel.
   Definition p2_run (R budget : nat) (s : p2st F PT) : p2st F PT :=
     p2_iterate R budget 0 (if normalize then normf s else s).
 End P2Skel.
+
+(* parafac2, between the initialiser and the loop (commit 29e7702):
+     if nn_modes is not None and isinstance(init, str):
+         nn_modes_init = range(len(factors)) if nn_modes == "all" else nn_modes
+         factors = [tl.clip(factor, 0) if mode in nn_modes_init else factor for mode, factor in enumerate(factors)]
+   only a BUILT-IN initialisation ('random' / 'svd') is projected onto the non-negative modes; a user-supplied decomposition
+   is the start state as it is, whatever nn_modes says.  `clip` is tl.clip(., 0) on a factor; nn = None: nn_modes is None;
+   "all" is passed as the list of all modes. *)
+Section P2Start.
+  Context {F : Type} (one : F).
+  Fixpoint clip_modes (clip : @matrix F -> @matrix F) (nn : list nat) (off : nat) (fs : list (@matrix F)) : list (@matrix F) :=
+    match fs with [] => [] | f :: r => (if memb off nn then clip f else f) :: clip_modes clip nn (S off) r end.
+  Definition p2_feasible (clip : @matrix F -> @matrix F) (builtin : bool) (nn : option (list nat)) (fs : list (@matrix F)) : list (@matrix F) :=
+    match nn with Some ms => if builtin then clip_modes clip ms 0 fs else fs | None => fs end.
+  (* the start state of parafac2 for a user-supplied init (builtin = false) or a built-in one whose answer is `init` (builtin = true) *)
+  Definition p2_start (qr : @matrix F -> @matrix F * @matrix F) (rank : nat) (clip : @matrix F -> @matrix F) (builtin : bool)
+      (nn : option (list nat)) (init : p2init F) : res (p2st F (list (@matrix F))) :=
+    match p2_init one qr rank init with
+    | Ok s => Ok (mkp2 (p2w s) (p2_feasible clip builtin nn (p2f s)) (p2P s))
+    | Err => Err
+    end.
+End P2Start.
